@@ -173,6 +173,11 @@ def point_src(vals, ints_ok=True):
     return "[" + " ".join(repr(float(Fraction(n, d))) for n, d in vals) + "]"
 
 
+CROSS_BODIES = ["(x@0)^(x@1)", "+/x^x", "2^+/x", "(+/x)^(x@0)", "exp(x@0)*sin(x@1)", "+/exp(x)", "+/x*sin(x)", "cos(+/x*x)", "+/x^1.5",
+                "(x@1)^(x@0)*0.5", "log((x@0)+(x@1)*(x@1))", "+/sqrt(x)", "(exp(x@0))^(x@1)", "+/{x^x}'x", "(x@0)^2.5-(x@1)^(x@0)"]
+CROSS_POINTS = ["[2.0 3.0]", "[1.5 0.5]", "[0.5 2.0]"]
+
+
 def flt(q):
     return q[0] / q[1]
 
@@ -353,6 +358,36 @@ def run(tier, seed):
                     case = {"form": form, "backend": "both", "kind": x["kind"], "top": x["ast"]["k"], "src": src, "raised": False, "ops": sorted(ops_of(x["ast"])),
                             "what": f"{src}: the backends disagree: numpy {short(got['numpy'])}, torch {short(got['torch'])}"}
                     clusters.setdefault((form, "both", False, tuple(case["ops"])), []).append(case)
+    # beyond the rational evaluator: exponents that depend on the variable and backend math functions.  No exact oracle: the two
+    # independent mechanisms (central differences under numpy, autograd under torch) must agree with each other.
+    n_cross = n_both = 0
+    for body in CROSS_BODIES:
+        for P in CROSS_POINTS:
+            src = f'.bkf(["exp" "sin" "cos" "log" "sqrt"]);f::{{{body}}};f:>{P}'
+            got = {}
+            for be in ("numpy", "torch"):
+                k = KlongInterpreter(backend=be) if be == "numpy" else KlongInterpreter(backend="torch", device="cpu")
+                try:
+                    got[be] = tonum(k(src))
+                except BaseException as exn:   # noqa
+                    got[be] = f"raised {type(exn).__name__}: {str(exn)[:80]}"
+                n_eval += 1
+            n_cross += 1
+            n_both += (not isinstance(got["numpy"], str)) and (not isinstance(got["torch"], str))
+            bad = None
+            if isinstance(got["numpy"], str) != isinstance(got["torch"], str):
+                bad = "one backend fails"
+            elif not isinstance(got["numpy"], str) and not close(got["torch"], got["numpy"], TOL["torch"]):
+                bad = "the backends disagree"
+            if bad:
+                case = {"form": "f:>p (cross-backend)", "backend": "both", "kind": "cross", "top": "src", "src": src, "raised": isinstance(got["torch"], str) or isinstance(got["numpy"], str),
+                        "ops": ["transcendental"], "relerr": None,
+                        "what": f"{src}: {bad}: numpy (central differences) gives {short(got['numpy'])}, torch (autograd) gives {short(got['torch'])}"}
+                clusters.setdefault(("cross", body), []).append(case)
+    ev.cov["cross_backend_only_cases"] = n_cross
+    ev.cov["cross_backend_cases_computed_by_both"] = n_both
+    if n_both < 0.8 * n_cross:
+        raise MachineryError(f"only {n_both} of {n_cross} cross-backend cases were computed by both backends")
     for key, items in sorted(clusters.items(), key=lambda kv: str(kv[0])):
         items.sort(key=lambda q: len(q["src"]))
         case = dict(items[0])
